@@ -718,7 +718,7 @@ def m_dict(interp, *a, **kw):
         else:
             for kv in interp.iterate(src):
                 k, v = tuple(interp.iterate(kv))
-                d[k] = v
+                interp.setitem(d, k, v)          # equal symbolic keys overwrite (decided by case split)
     d.update(kw)
     interp._note_alloc(d)
     return d
